@@ -23,6 +23,13 @@ class R:
         if u == "self.patience": return ("pat", "q")
         if u in ("np.nan",): return ("none", "oq")
         if u == "self.discount": return ("disc", "disc")
+        if u == "self.item_ranks": return ("R", "series")
+        if isinstance(e, ast.Call) and isinstance(e.func, ast.Attribute) and e.func.attr == "mean" and not e.args and not e.keywords:
+            a = self.ex(e.func.value, env)
+            if a[1] == "qs": return (f"(meanQ {a[0]})", "q")
+        if isinstance(e, ast.Call) and isinstance(e.func, ast.Attribute) and e.func.attr == "reindex" and len(e.args) == 1 and [(k.arg, U(k.value)) for k in e.keywords] == [("fill_value", "0")]:
+            sv, it = self.ex(e.func.value, env), self.ex(e.args[0], env)
+            if sv[1] == "series" and it[1] == "ids": return (f"(reindex0 {sv[0]} {it[0]})", "qs")          # a re-indexed series, of which only the values are used
         if u == "test.field(self.gain, 'pandas', index='ids')": return ("T", "series")
         if isinstance(e, ast.Constant) and isinstance(e.value, (int, float)) and float(e.value) == int(e.value): return (f"({int(e.value)} : Q)", "qlit")
         if isinstance(e, ast.Call):
@@ -160,7 +167,7 @@ class R:
 
 SITES = [("_hit.py", "Hit", "hitT", ""), ("_pr.py", "Precision", "precisionT", ""), ("_pr.py", "Recall", "recallT", ""),
          ("_recip.py", "RecipRank", "recipRankT", ""), ("_rbp.py", "RBP", "rbpT", " (pat : Q) (normalize : Bool)"),
-         ("_dcg.py", "NDCG", "ndcgT", " (disc : Nat → Q) (gainGiven : Bool)")]
+         ("_dcg.py", "NDCG", "ndcgT", " (disc : Nat → Q) (gainGiven : Bool)"), ("_pop.py", "MeanPopRank", "meanPopRankT", " (R : List (Nat × Q))")]
 
 def generate(src_root):
     parts = []; notes = []
